@@ -16,7 +16,10 @@ ASSUMPTIONS = ['numpy model (models/np_model.py) validated by conformance + witn
 
 def configs(tier):
     top = 10 if tier == 'quick' else 13
-    return [{'n': n, 'kind': 'array'} for n in range(0, top + 1)] + [{'n': 3, 'kind': 'list'}]
+    out = [{'n': n, 'kind': 'array'} for n in range(0, top + 1)] + [{'n': 3, 'kind': 'list'}]
+    # boolean arrays that are views with other memory layouts (every second element, reversed, a matrix column)
+    out += [{'n': n, 'kind': 'array', 'layout': lay} for n in (3, 5, 6) for lay in ('strided', 'flipped', 'column')]
+    return out
 
 
 def cost(cfg):
@@ -46,6 +49,17 @@ def run(ctx, cfg):
         ctx.fail('non-array input accepted')
         return
     arr = np.array(bits, dtype=bool)
+    lay = cfg.get('layout')
+    if lay == 'strided':
+        base = np.zeros(2 * n, dtype=bool)
+        base[::2] = arr
+        arr = base[::2]
+    elif lay == 'flipped':
+        arr = np.flip(np.array(list(reversed(bits)), dtype=bool))
+    elif lay == 'column':
+        base = np.zeros((n, 2), dtype=bool)
+        base[:, 1] = arr
+        arr = base[:, 1]
     try:
         out = bu.check_min_burst_cycles(arr, min_n_cycles=m)
     except Exception as e:
